@@ -310,10 +310,13 @@ func init() {
 		if w.Code == 500 && w.Body.Len() == 0 {
 			panic("router: recovered panic") // gin.Recovery answered
 		}
+		if os.Getenv("VERIF_SHOW_PANIC") != "" {
+			os.Stderr.WriteString("router: " + oi(int64(w.Code)) + " " + w.Body.String() + "\n")
+		}
 		m := map[string]interface{}{}
 		_ = json.Unmarshal(w.Body.Bytes(), &m)
 		msg, _ := m["Msg"].(string)
-		if w.Code == 400 && r.cls < 1 { // binding:"required" rejects cls = 0 before the handler
+		if r.cls == 0 && strings.Contains(msg, "CreateBoardPath.ClsBid") { // binding:"required" rejects cls = 0 before the handler
 			return 1, 0
 		}
 		return c12MsgCode(msg), 0
